@@ -183,6 +183,13 @@ def oracle_sequence(reqs, reps, exited, n=1):
         return "%d replies for %d reply-bearing requests served" % (len(reps), len(bearing))
     if exited != any(r[0] == "shutdown" for r in reqs):
         return "worker exit flag %r does not match presence of a shutdown request" % exited
+    # the presets in force at each reply-bearing request: the dictionary returned by the LAST init request before it
+    mem_at, mem = {}, {}
+    for idx, r in enumerate(served):
+        if r[0] == "init":
+            kind, i = r[1]
+            mem = {"preset": {"b": i}, "preset2": {"a": i, "zz": 1}}.get(kind, mem)
+        mem_at[id(r)] = dict(mem)
     for r, rep in zip(bearing, reps):
         if r[0] == "shutdown":
             if rep != {"result": True}:
@@ -207,6 +214,20 @@ def oracle_sequence(reqs, reps, exited, n=1):
             firsts = res
         else:
             firsts = [res]
+        if fn == "echo":
+            # echo(a=None, b=None, c=None) returns [a, b, c]: caller's values win, presets fill only what is left open
+            names = ["a", "b", "c"]
+            want = []
+            for j, nm in enumerate(names):
+                if j < len(pos):
+                    want.append(pos[j])
+                elif nm in kw:
+                    want.append(kw[nm])
+                else:
+                    want.append(mem_at[id(r)].get(nm))
+            for one in firsts:
+                if one != want:
+                    return "echo%r%r with presets %r answered %r, expected %r" % (tuple(pos), kw, mem_at[id(r)], one, want)
         for rank, one in enumerate(firsts):
             marker = pos[0] if pos else kw.get("a")
             if marker is not None and (not isinstance(one, list) or one[0] != marker):
